@@ -80,6 +80,8 @@ func runtimeOptSets(kind string) []optSet {
 	switch kind {
 	case "dup":
 		return []optSet{allOptSets[0], allOptSets[2], allOptSets[4], allOptSets[6], allOptSets[3]}
+	case "branch": // no merge candidates; one tree without de-duplication as control
+		return []optSet{allOptSets[0], allOptSets[2], allOptSets[4]}
 	case "entity":
 		return []optSet{allOptSets[0], allOptSets[1], allOptSets[2], allOptSets[3]}
 	default:
@@ -141,9 +143,12 @@ func buildResponse(spec *planSpec, eager bool) (*resolve.GraphQLResponse, *planR
 		f := &spec.Fetches[i]
 		var item *resolve.FetchItem
 		var err error
-		if spec.Kind == "entity" {
+		switch spec.Kind {
+		case "entity":
 			item, err = buildEntityKindFetch(spec, rt, f, eager)
-		} else {
+		case "branch":
+			item = buildBranchFetch(spec, rt, f)
+		default:
 			item = buildPlainFetch(spec, rt, f)
 		}
 		if err != nil {
@@ -157,12 +162,128 @@ func buildResponse(spec *planSpec, eager bool) (*resolve.GraphQLResponse, *planR
 		}
 		resp.RawFetches = append(resp.RawFetches, item)
 	}
-	if spec.Kind == "entity" {
+	switch spec.Kind {
+	case "entity":
 		resp.Data = entityDataTree(spec)
-	} else {
+	case "branch":
+		resp.Data = branchDataTree(spec)
+	default:
 		resp.Data = plainDataTree(spec)
 	}
 	return resp, rt, nil
+}
+
+// ---------------------------------------------------------------------------------------------
+// branch kind: type-conditioned branches of an abstract list (see randomBranch)
+
+const brOwnerType = "U"
+
+func brSelection(f *fetchSpec) string {
+	switch f.Flavor {
+	case flBrProvider:
+		if f.DS == 1 {
+			return fmt.Sprintf(`... on %s {p%d o {__typename id}}`, f.Type, f.ID)
+		}
+		return fmt.Sprintf(`... on %s {p%d}`, f.Type, f.ID)
+	case flBrOwner:
+		return `... on ` + brOwnerType + ` {name}` // the same request for every branch
+	default:
+		return fmt.Sprintf(`... on %s {x%d}`, brOwnerType, f.ID)
+	}
+}
+
+// brRepresentationFields: names of the fields (besides __typename and id) a branch-kind fetch
+// sends per entity = what it reads from its dependencies.
+func (p *planSpec) brRepresentationFields(f *fetchSpec) []string {
+	var out []string
+	switch f.Flavor {
+	case flBrProvider:
+		for _, d := range f.Deps {
+			if df := p.get(d); df != nil && df.Flavor == flBrProvider {
+				out = append(out, fmt.Sprintf("p%d", d))
+			}
+		}
+	case flBrReader:
+		out = append(out, "name")
+	}
+	return out
+}
+
+func buildBranchFetch(spec *planSpec, rt *planRuntime, f *fetchSpec) *resolve.FetchItem {
+	info := func(name string) *resolve.FetchInfo {
+		return &resolve.FetchInfo{DataSourceID: name, DataSourceName: name, OperationType: ast.OperationTypeQuery}
+	}
+	if f.Root {
+		sf := &resolve.SingleFetch{
+			FetchDependencies: resolve.FetchDependencies{FetchID: f.ID},
+			FetchConfiguration: resolve.FetchConfiguration{
+				Input:      fmt.Sprintf(`{"id":%d,"deps":[]}`, f.ID),
+				DataSource: &fakeDS{rt: rt, fid: f.ID},
+				PostProcessing: resolve.PostProcessingConfiguration{
+					SelectResponseDataPath:   []string{"data"},
+					SelectResponseErrorsPath: []string{"errors"},
+				},
+			},
+			Info: info("root"),
+		}
+		return resolve.FetchItemWithPath(sf, "")
+	}
+	var onTypes [][]byte
+	if f.Flavor == flBrProvider {
+		// a provider works on the items of its type only: the representation renders for those
+		onTypes = [][]byte{[]byte(f.Type)}
+	}
+	fields := []*resolve.Field{
+		{Name: []byte("__typename"), Value: &resolve.String{Path: []string{"__typename"}}, OnTypeNames: onTypes},
+		{Name: []byte("id"), Value: &resolve.String{Path: []string{"id"}}, OnTypeNames: onTypes},
+	}
+	for _, name := range spec.brRepresentationFields(f) {
+		fields = append(fields, &resolve.Field{Name: []byte(name), Value: &resolve.String{Path: []string{name}, Nullable: true}, OnTypeNames: onTypes})
+	}
+	subgraph := map[flavor]string{flBrProvider: "items", flBrOwner: "users", flBrReader: "users"}[f.Flavor]
+	query := `query($representations: [_Any!]!){_entities(representations: $representations){` + brSelection(f) + `}}`
+	sf := &resolve.SingleFetch{
+		FetchDependencies: resolve.FetchDependencies{FetchID: f.ID, DependsOnFetchIDs: append([]int(nil), f.Deps...)},
+		FetchConfiguration: resolve.FetchConfiguration{
+			Input:                                 string(httpclient.AssembleGraphQLRequestInput([]byte(`{"representations":[$$0$$]}`), []byte(query), nil, "http://"+subgraph, "POST")),
+			Variables:                             resolve.NewVariables(resolve.NewResolvableObjectVariable(&resolve.Object{Fields: fields})),
+			DataSource:                            &fakeDS{rt: rt, fid: f.ID},
+			RequiresEntityBatchFetch:              true,
+			SetTemplateOutputToNullOnVariableNull: true,
+			PostProcessing: resolve.PostProcessingConfiguration{
+				SelectResponseDataPath:   []string{"data", "_entities"},
+				SelectResponseErrorsPath: []string{"errors"},
+			},
+		},
+		Info: info(subgraph),
+	}
+	if f.Flavor == flBrProvider {
+		return resolve.FetchItemWithPath(sf, "l.@", resolve.ArrayPath("l"))
+	}
+	o := resolve.ObjectPath("o")
+	if f.Type != "" {
+		o = resolve.PathElementWithTypeNames(o, []string{f.Type})
+	}
+	return resolve.FetchItemWithPath(sf, "l.@.o", resolve.ArrayPath("l"), o)
+}
+
+func branchDataTree(spec *planSpec) *resolve.Object {
+	root := &resolve.Object{}
+	item := &resolve.Object{Nullable: true, Fields: []*resolve.Field{strField("id", "id")}}
+	owner := &resolve.Object{Path: []string{"o"}, Nullable: true, Fields: []*resolve.Field{strField("id", "id"), strField("name", "name")}}
+	for _, f := range spec.Fetches {
+		switch {
+		case f.Root:
+			root.Fields = append(root.Fields, strField(fmt.Sprintf("r%d", f.ID), fmt.Sprintf("r%d", f.ID)))
+		case f.Flavor == flBrProvider:
+			item.Fields = append(item.Fields, strField(fmt.Sprintf("p%d", f.ID), fmt.Sprintf("p%d", f.ID)))
+		case f.Flavor == flBrReader:
+			owner.Fields = append(owner.Fields, strField(fmt.Sprintf("x%d", f.ID), fmt.Sprintf("x%d", f.ID)))
+		}
+	}
+	item.Fields = append(item.Fields, &resolve.Field{Name: []byte("o"), Value: owner})
+	root.Fields = append(root.Fields, &resolve.Field{Name: []byte("l"), Value: &resolve.Array{Path: []string{"l"}, Nullable: true, Item: item}})
+	return root
 }
 
 func plainInputTemplate(spec *planSpec, f *fetchSpec) (string, []resolve.Variable) {
